@@ -58,7 +58,10 @@ impl KList {
         } else {
             ctx.push_container(id);
 
-            for (i, value) in self.data().iter().enumerate() {
+            // The values are displayed from a copy of the list's data:
+            // displaying a value can call a `@display` function that modifies the list.
+            let data = self.data().clone();
+            for (i, value) in data.iter().enumerate() {
                 if i > 0 {
                     ctx.append(", ");
                 }
